@@ -271,7 +271,7 @@ def respHeaderClauses (text : Bool) (before after : List Pair) : List (String ×
 
 def encOfText (t : Bool) : Cmp := if t then .bytesCleanOnly else .exact
 
-def handle (case obs : List String) : String × String :=
+def handle0 (case obs : List String) : String × String :=
   match case with
   | "resp" :: acc :: evToks =>
     match optHex acc, parseEvs evToks with
@@ -407,5 +407,12 @@ def handle (case obs : List String) : String × String :=
       | none => bad
     | _, _, _, _ => bad
   | _ => bad
+
+/-- `resph <hints> …`: the inner response body additionally gives size / end-of-stream hints; hints must
+not change what the layer emits, so the case is judged exactly like `resp`. -/
+def handle (case obs : List String) : String × String :=
+  match case with
+  | "resph" :: _hints :: rest => handle0 ("resp" :: rest) obs
+  | _ => handle0 case obs
 
 end DriverC16
